@@ -200,11 +200,14 @@ func (c *chatHandler) handleSessionCommand(packet *chat.SessionPlayerCommand, un
 			c.log.Info("A plugin tried to deny a command with signable component(s). This is not supported with forceKeyAuthentication enabled.")
 			return nil
 		}
+		// Keep the (fixed) 'last seen' update of the original packet: it carries the client's offset plus the
+		// acknowledgements the chat queue held back. Dropping it desyncs the backend's last-seen window.
 		return (&chat.Builder{
-			Protocol:  c.player.Protocol(),
-			Message:   "/" + newCommand,
-			Sender:    c.player.ID(),
-			Timestamp: packet.Timestamp,
+			Protocol:         c.player.Protocol(),
+			Message:          "/" + newCommand,
+			Sender:           c.player.ID(),
+			Timestamp:        packet.Timestamp,
+			LastSeenMessages: packet.LastSeenMessages,
 		}).ToServer()
 	}
 
@@ -253,7 +256,8 @@ func (c *chatHandler) handleSessionCommand(packet *chat.SessionPlayerCommand, un
 				Content: "An error occurred while running this command.",
 				S:       component.Style{Color: color.Red},
 			})
-			return nil
+			// The proxy consumed the command (it failed), so its 'last seen' update still has to reach the backend.
+			return consumeCommand(packet, newLastSeenMessages != nil)
 		}
 		if hasRun {
 			return consumeCommand(packet, newLastSeenMessages != nil)
